@@ -292,6 +292,28 @@ def allCanonical : List FormTree → Bool
   | t :: ts => boolsCanonical t && allCanonical ts
 end
 
+/-! ### the same tree as the case description of the runner (`Tree`, `select` of `Flatland/C12.lean`) -/
+
+mutual
+/-- forget the widgets.  A JoinedString is described as an Array node (its members) whose display
+    text is supplied with the render, as in the case JSON -/
+def FormTree.tree : FormTree → Tree
+  | .text n u _ _ => .leaf n u
+  | .bool n tru u _ => .bool n tru u
+  | .array n strip ms _ _ => .array n strip (ms.map some)
+  | .joined n _ ms _ _ => .array n true (ms.map some)
+  | .dict n fields => .dict n (treesOf fields)
+  | .list n members => .list n (treesOf members)
+def treesOf : List FormTree → List Tree
+  | [] => []
+  | t :: ts => t.tree :: treesOf ts
+end
+
+/-- the element a control group is bound to -/
+def Control.bind : Control → Bind
+  | .single _ b _ => b
+  | .select b _ _ => b
+
 /-! ### the same tree in the flat model -/
 
 open Flatland.Flat (FNode)
